@@ -110,6 +110,17 @@ CLAIMED = {
         note="Trusted: TLC, pools.py byte-order table, encoding/json token scanner.",
         technique="TLA+ spec (Codec.tla KeyOrder) model-checked with TLC; behaviours replayed on the real Marshal",
         design="6/C19"),
+    "C13": dict(
+        text="Concurrency.tla runs two Validate calls as processes over private dynamic-scope stacks and read-only Resolved tables; "
+             "the processes' programs are the frame-event sequences RECORDED from the real code (frame hook), so the model is bound "
+             "to real executions. TLC explores every interleaving (bounded scenarios; larger ones by simulation) and checks that "
+             "each dynamic-anchor lookup equals its sequential result; every interleaving is then replayed on the real code with the "
+             "blocking frame hook as the scheduler gate and all verdicts compared with the sequential run. Data races are decided by "
+             "the Go race detector on ungated goroutines over shared Resolved, Schema trees, type caches and a shared Loader document.",
+        note="Trusted: TLC, Go race detector (dynamic: only races that occur in the stress run are seen), hook placement. "
+             "Gated replay has the granularity of frame events, not of individual memory accesses.",
+        technique="TLA+ process model over recorded frame programs model-checked with TLC; schedules replayed with a hook gate; -race stress",
+        design="6/C13"),
     "C14": dict(
         text="Lifecycle.tla models the API as a state machine over the objects a caller shares between calls (two roots of "
              "different drafts, one remote document handed out by a memoising Loader); TLC checks, for all call histories, that "
